@@ -52,6 +52,17 @@ Definition items_of (r : nat) (h : list op) (xs : list out) : list (op * out) :=
 Definition forces (o : op) : bool :=
   match o with Samples _ _ _ _ => true | Freqs _ _ false _ => true | _ => false end.
 
+(* two reads of the same view of one result must agree, whatever the shots are *)
+Definition same_view (a b : op) : bool :=
+  match a, b with
+  | Samples _ b1 g1 _, Samples _ b2 g2 _ => Bool.eqb b1 b2 && Bool.eqb g1 g2
+  | Freqs _ b1 g1 _, Freqs _ b2 g2 _ => Bool.eqb b1 b2 && Bool.eqb g1 g2
+  | Probs _ q1, Probs _ q2 => list_eqb Nat.eqb q1 q2
+  | _, _ => false
+  end.
+Definition contradictory (items : list (op * out)) : bool :=
+  existsb (fun p => existsb (fun q => same_view (fst p) (fst q) && negb (out_eqb (snd p) (snd q))) items) items.
+
 Definition spec_verdict (cfg : config) (h : list op) (xs : list out) (r : nat) (R : result)
            (cand : option (list nat)) : nat :=
   let items := items_of r h xs in
@@ -63,7 +74,7 @@ Definition spec_verdict (cfg : config) (h : list op) (xs : list out) (r : nat) (
       if shots_okb cfg (r_w R) (r_nshots R) sh &&
          forallb (fun p => explainsb cfg (r_w R) sh (fst p) (snd p)) items
       then 0
-      else if existsb (fun p => forces (fst p)) items
+      else if existsb (fun p => forces (fst p)) items || contradictory items
               || negb (forallb (fun p => needs_shots (fst p) || explainsb cfg (r_w R) sh (fst p) (snd p)) items)
            then 1 else 2
   end.
